@@ -697,7 +697,8 @@ def rule_key_equality(res, rid, m):
                   (missed[0] - ep["fields"][[f["name"] for f in ep["fields"]].index(fname[missed[0]])]["offset_bits"] if missed else "", fname.get(missed[0]) if missed else "", len(missed))
                   if missed else "Endpoint::operator== is not reflexive")
         h = fb.fn(DEC + "::EndpointHash::operator()")
-        rd = {d for d in reads(h.body) if "::" in d}
+        constants = {st["name"] for st in fb.statics.values() if st.get("const") and st.get("constant_init") and not st.get("mutable_fields")}
+        rd = {d for d in reads(h.body) if "::" in d and d not in constants}  # named compile-time constants are not state
         calls = {c for c in facts.called_names(h.body) if not c.startswith(EP + "::")}
         res.check(rd <= set(names) and not calls, rid, "EndpointHash", h.loc, "hash is a function of the key only",
                   "EndpointHash reads %s / calls %s" % (sorted(rd - set(names)), sorted(calls)))
@@ -775,6 +776,46 @@ def rule_loop_typestate(res, rid, m):
     return n
 
 
+def default_state_rejects(m, aps):
+    """(ok, text): a default-constructed reassembly entry can never accept a segment because of its segment state alone."""
+    fb = m.fb
+    segrec = fb.record(SEG)
+    st = [x for x in segrec["fields"] if x["t"].get("k") == "enum" and x["t"].get("enum") == MH + "::SegmentType"]
+    if len(st) != 1:
+        return False, "no single segment-state member"
+    init = st[0].get("init")
+    s0 = const_value(init) if isinstance(init, dict) else None
+    if s0 is None and isinstance(init, dict) and init.get("k") == "initlist":
+        s0 = const_value(init["inits"][0]) if init.get("inits") else 0
+    if s0 is None:
+        return False, "segment-state member has no constant in-class initialiser"
+    vals = {e["name"]: e["value"] for e in fb.enum(MH + "::SegmentType")["enumerators"]}
+    ivt = fb.fn_opt(SEG + "::isValidSegmentType") if hasattr(fb, "fn_opt") else None
+    if ivt is None or not ivt.params:
+        return False, "no transition test"
+    for p, r, ws in aps:
+        if not any(a[0] == "truth" and a[2] is True and a[3].get("k") == "call" and callee_name(a[3]) == ivt.name for a in p.atoms):
+            return False, "an accepting path does not pass the transition test"
+    state_field = "this->" + st[0]["qname"].split("::")[-1]
+    for t in ("intermediarySegment", "lastSegment"):
+        try:
+            if tables.ceval(ivt, {state_field: s0, ivt.params[0]["decl"]: vals[t]}):
+                return False, "default state %d accepts %s" % (s0, t)
+        except tables.Unsupported as e:
+            return False, "transition test outside the table vocabulary (%s)" % e
+    n = 0
+    for p in m.body_paths():
+        if any(True for _ in p.calls(SEG + "::addSegment")):
+            n += 1
+            lab = seg_labels(fb, p)
+            if not (lab["segmented"] is True and lab["first"] is False):
+                return False, "addSegment is reachable with a segment that is not a continuation"
+    if n == 0:
+        return False, "no path calls addSegment"
+    return True, "default state %d rejects intermediary and last segments, every accepting path passes the transition test, addSegment only " \
+        "receives continuation segments" % s0
+
+
 def rule_default_entry_rejected(res, rid, m):
     """C17-R1 lemma: operator[] may insert a default entry; it can never be accepted."""
     fb = m.fb
@@ -804,16 +845,24 @@ def rule_default_entry_rejected(res, rid, m):
                 for x, y in ((l, rr), (rr, l)):
                     if x.get("k") == "member" and x.get("dk") == "field" and y.get("k") == "ref" and y.get("decl") == pver:
                         vfield = x
+    # second, independent barrier: the default entry's segment state admits no continuation segment, every accepting path passes the
+    # transition test, and addSegment is only ever given continuation segments
+    barrier_b, why_b = default_state_rejects(m, aps)
     if vfield is None:
-        res.bad(rid, "addSegment:version-guard", m.addSegment.loc, "accepting a segment is not guarded by `stored version == frame version`: "
-                "a default-constructed entry (inserted by operator[]) could be accepted")
+        res.check(barrier_b, rid, "default-entry:state", m.addSegment.loc, "default entry rejected by its segment state: " + why_b,
+                  "accepting a segment is not guarded by `stored version == frame version`, and the default entry's segment state does not reject "
+                  "continuations either (%s): a default-constructed entry (inserted by operator[]) could be accepted" % why_b)
         return
     f = fb.field(SEG, vfield["name"])
     iv = const_value(f.get("init")) if isinstance(f.get("init"), dict) else None
     if iv is None and isinstance(f.get("init"), dict) and f["init"].get("k") == "initlist":
         iv = const_value(f["init"]["inits"][0]) if f["init"].get("inits") else 0
-    res.check(iv == 0, rid, "default-entry:version", f["loc"], "default entry has stored version 0 (in-class initialiser of %s)" % f["name"],
-              "default-constructed reassembly entry has version %r: a continuation without a first segment could be accepted" % iv)
+    if iv != 0 and barrier_b:
+        res.ok(rid, "default-entry:state", f["loc"], "default entry has stored version %r but is rejected by its segment state: %s" % (iv, why_b))
+    else:
+        res.check(iv == 0, rid, "default-entry:version", f["loc"], "default entry has stored version 0 (in-class initialiser of %s)" % f["name"],
+                  "default-constructed reassembly entry has version %r (and its segment state does not reject continuations: %s): a continuation "
+                  "without a first segment could be accepted" % (iv, why_b))
     # (b) the message loop is only reached when the first input byte is non-zero
     mfd = MustFacts(m.decode)
     ok = False
@@ -826,9 +875,12 @@ def rule_default_entry_rejected(res, rid, m):
                     defs = facts.local_defs(m.decode).get(tgt["decl"], [])
                     if tgt.get("decl") == "p0:data" or (len(defs) == 1 and strip_all_casts(defs[0]).get("decl") == "p0:data"):
                         ok = True
-    res.check(ok, rid, "decode:first-byte-nonzero", m.decode.loc, "every path to the message loop has tested input byte 0 != 0 "
-              "(TECMP routing guard), so the frame version passed on is non-zero",
-              "the message loop is reachable with first input byte 0: a default entry (version 0) could match")
+    if ok or not barrier_b:
+        res.check(ok, rid, "decode:first-byte-nonzero", m.decode.loc, "every path to the message loop has tested input byte 0 != 0 "
+                  "(TECMP routing guard), so the frame version passed on is non-zero",
+                  "the message loop is reachable with first input byte 0: a default entry (version 0) could match")
+    else:
+        res.ok(rid, "decode:first-byte-nonzero", m.decode.loc, "version 0 can reach the message loop, but the default entry is rejected by its segment state: " + why_b)
     # (c) the version passed to addSegment is byte 0 of the same buffer
     seen_c = set()
     adds = []
@@ -1449,14 +1501,8 @@ def rule_reject_reasons(res, rid, m):
     GPL = MH + "::getPayloadLength"
     n = 0
     seen = set()
-    for p in paths.enumerate_paths(f):
-        r = p.returns()
-        if r is None or const_value(p.value_of(r["e"], before=r["id"])) != 0:
-            continue
-        if not p.atoms:
-            res.bad(rid, "reject:unconditional", r.get("loc"), "addSegment rejects unconditionally")
-            continue
-        a = p.atoms[-1]
+
+    def reason_of(a):
         key = None
         why = None
         if a[0] == "cmp":
@@ -1499,6 +1545,38 @@ def rule_reject_reasons(res, rid, m):
                                   "bytes (legal: the length field is 16 bits) are dropped" % (first_rejected, first_rejected - hdr)
         elif a[0] == "truth" and a[3].get("k") == "call" and callee_name(a[3]) == SEG + "::isValidSegmentType" and a[2] is False:
             key = "reject:invalid-transition"
+        return key, why
+
+    for p in paths.enumerate_paths(f):
+        r = p.returns()
+        if r is None or const_value(p.value_of(r["e"], before=r["id"])) != 0:
+            continue
+        if not p.atoms:
+            res.bad(rid, "reject:unconditional", r.get("loc"), "addSegment rejects unconditionally")
+            continue
+        a = p.atoms[-1]
+        key, why = reason_of(a)
+        if key is None and a[0] == "truth" and a[2] is False:
+            # rejected because a conjunction of conditions failed (`const bool ok = A && B && C; if (!ok) return false;`):
+            # the rejection is by a protocol reason when every conjunct, negated, is one
+            cj = facts.conjuncts(a[3], True, f)
+            # a bool local appears as itself and as its expansion: keep the expansion
+            named = [c for c in cj if c[0] == "truth" and strip_all_casts(c[3]).get("k") == "ref" and strip_all_casts(c[3]).get("dk") == "local" and
+                     len(facts.local_defs(f).get(strip_all_casts(c[3])["decl"], [])) == 1]
+            if len(named) < len(cj):
+                cj = [c for c in cj if c not in named]
+            if len(cj) > 1 or (len(cj) == 1 and cj[0][:3] != a[:2] + (True,)):
+                subs = []
+                for c in cj:
+                    neg = ("cmp", c[1], facts._neg_op(c[2]), c[3], c[4], c[5]) if c[0] == "cmp" else ("truth", c[1], not c[2], c[3])
+                    subs.append(reason_of(neg))
+                if subs and all(k3 is not None for k3, _ in subs):
+                    n += 1
+                    for k3, w3 in subs:
+                        if k3 not in seen:
+                            seen.add(k3)
+                            res.check(w3 is None, rid, k3, r.get("loc"), "rejection decided by a protocol reason (one conjunct of the accept condition)", w3 or "")
+                    continue
         n += 1
         if key is None:
             k2 = "reject:unknown:%s" % (a[1][:50] if len(a) > 1 else "?")
